@@ -77,6 +77,23 @@ def gen_case(seed):
             sc["script"].append({"t": t, "side": "server", "op": "forge", "ptype": "1rtt", "from_alt": True,
                                  "frames_hex": "1a" + "%016x" % r6.getrandbits(64) + r6.choice(["", "00" * 20])})
         sc["script"].sort(key=lambda o: o["t"])
+    r7 = random.Random("c12-ranges/%s" % seed)
+    if r7.random() < 0.08:
+        # directed: far more than MAX_ACK_RANGES (32) disjoint ranges in one endpoint's ack queue: a long run of small
+        # ack-eliciting packets (PINGs) of which every second one is lost on average, while nothing the receiver
+        # sends gets through, so no ACK-of-ACK ever prunes its queue; every arriving packet with the highest number
+        # is still owed its acknowledgement in time, whatever the frame has to leave out
+        snd = r7.choice(["client", "server"])
+        fwd, back = ("c2s", "s2c") if snd == "client" else ("s2c", "c2s")
+        n = r7.choice([200, 260, 400])
+        t0 = 1.0
+        sc["opts"].pop("resume", None)
+        sc["opts"].pop("resume_forget", None)
+        sc["fates"] = {"delay": sc["fates"]["delay"], "adv_seconds": 4.0, "adv_dgrams": 10**6, "loss": 0.0, "dup": 0.0,
+                       "loss_windows": [[t0, t0 + 2.0, fwd, r7.choice([0.4, 0.5, 0.6])]], "blackouts": [[t0 - 0.05, t0 + 2.5, back]]}
+        sc["script"] = [{"t": round(t0 + i * 0.0015, 4), "side": snd, "op": "ping", "uid": 5000 + i} for i in range(n)]
+        sc["horizon"] = 60.0
+        sc["mode"] = "many-ranges"
     r3 = random.Random("c12-late0rtt/%s" % seed)
     if r3.random() < 0.12:
         # directed: a resumed session whose 0-RTT datagram (early data written just after the first flight left) is held
@@ -137,6 +154,10 @@ def run_batch(batch):
         sim, ok = run_case(sc, [am], res, {"gen": "acks", "seeds": [seed]},
                            counters=("ack_frames_checked", "acked_numbers_checked", "timeliness_obligations", "timeliness_met", "next_tx_obligations", "exempt", "exempt_not_opened", "opened_and_owed", "path_changes", "exempt_path_switched"),
                            nontrivial=lambda s: am.timeliness_met > 0 and am.ack_frames_checked > 5, sig_extra=(sc["mode"],))
+        res.maxc("max_ranges_in_one_ack_frame", am.max_ranges)
+        if sc["mode"] == "many-ranges":
+            res.count("many_ranges_cases")
+            res.count("many_ranges_cases_reaching_32_ranges", 1 if am.max_ranges >= 32 else 0)
         if ok:
             res.sample({"seed": seed, "mode": sc["mode"], "opts": sc["opts"], "fates": dict(sim.fates.counts), "ack_frames_checked": am.ack_frames_checked,
                         "acked_numbers_checked": am.acked_numbers_checked, "timeliness_met": am.timeliness_met, "exempt": am.exempt}, limit=2)
